@@ -244,7 +244,7 @@ def main(tier):
     ev.cov["rule"] = RULE
     ev.assumptions = ["function bodies are closed over their parameter and the helper functions; every mutation is wrapped in try/catch so that a rejected mutation "
                       "(const violation) does not end the body", "the deep dump renders every Constant node's value through the runner's type-aware renderer"]
-    n = 3000 if tier == "quick" else 200000
+    n = 3000 if tier == "quick" else 30000
     failures = hyp.run("c08", ev, tier, n)
     confirmed = hyp.confirm("c08", failures, PID)
     for p, what in confirmed:
